@@ -3,7 +3,88 @@ MODULE = 'outrank/algorithms/importance_estimator.py'
 
 _G = {'g_fv': 'g_fv', 'g_fc': 'g_fc', 'g_cv': 'g_cv', 'g_cc': 'g_cc', 'g_eff': 'g_eff', 'g_sx': 'g_sx', 'g_sy': 'g_sy'}
 
+ARGS_RANK = {'__class__': 'args', 'heuristic': 'str', 'label_column': 'str', 'reference_model_JSON': 'str',
+             'mi_stratified_sampling_ratio': 'real'}
+FRAME_INT = {'__class__': 'DataFrame', 'columns': 'list[str]', 'nrows': 'int', 'data': 'FrameData', 'cells': 'const:"int"'}
+VALID2 = [
+    ('lens', 'len(vector_first) == len(vector_second) and len(vector_first) >= 1 and len(vector_first) <= 10**6'),
+    ('codes_first', 'all(0 <= vector_first[i] and vector_first[i] < 2**20 for i in range(len(vector_first)))'),
+    ('codes_second', 'all(0 <= vector_second[i] and vector_second[i] < 2**20 for i in range(len(vector_second)))'),
+]
+_C0, _C1, _LAB = 'combination[0]', 'combination[1]', 'args.label_column'
+ROLE_FIRST = f'ite({_C0} == {_LAB}, tmp_df[{_C1}].values, tmp_df[{_C0}].values)'
+ROLE_SECOND = f'ite({_C0} == {_LAB}, tmp_df[{_LAB}].values, tmp_df[{_C1}].values)'
+PAIR_SCORE = f'fn("fn_rank", {ROLE_FIRST}, {ROLE_SECOND}, args.heuristic, args.mi_stratified_sampling_ratio)'
+
+
+def _external(name, params):
+    return dict(external=True, param_names=params, params={p: 'int64[:]' for p in params}, strings='opaque',
+                returns='real', function_symbol=name, pure='@function_symbol',
+                requires=[])
+
+
 CONTRACTS = {
+    # ---- assumed contracts of library scorers: "they compute what their names say" (deterministic functions)
+    'sklearn_MI': _external('fn_sklearn_mutual_info_classif', ['vector_first', 'vector_second']),
+    'sklearn_mi_adj': _external('fn_sklearn_adjusted_mutual_info_score', ['vector_first', 'vector_second']),
+    'pearsonr': dict(_external('fn_scipy_pearsonr', ['x', 'y']), returns=['real', 'real']),
+    'sklearn_surrogate': dict(external=True, param_names=['vector_first', 'vector_second', 'surrogate_model'], strings='opaque',
+                              params={'vector_first': 'int64[:]', 'vector_second': 'int64[:]', 'surrogate_model': 'str'},
+                              returns='real', function_symbol='fn_sklearn_surrogate', pure='@function_symbol', requires=[]),
+    'conduct_feature_ranking': dict(
+        strings='opaque',
+        params={'vector_first': 'int64[:]', 'vector_second': 'int64[:]', 'args': ARGS_RANK},
+        requires=VALID2 + [('ratio', '0 < args.mi_stratified_sampling_ratio and args.mi_stratified_sampling_ratio <= 1')],
+        returns='real',
+        function_symbol='fn_rank',
+        function_args=['vector_first', 'vector_second', 'args.heuristic', 'args.mi_stratified_sampling_ratio'],
+        call_ghosts={'numba_mi': {'g_eff': 'g_eff', 'g_fv': 'g_fv', 'g_fc': 'g_fc', 'g_cv': 'g_cv', 'g_cc': 'g_cc'}},
+        ghost_out={'g_fv': 'int32[:]', 'g_fc': 'int32[:]', 'g_cv': 'int32[:]', 'g_cc': 'int32[:]', 'g_eff': 'bool'},
+        ensures=[
+            ('MI', 'implies(args.heuristic == "MI", result == fn("fn_sklearn_mutual_info_classif", vector_first, vector_second))'),
+            ('AMI', 'implies(args.heuristic == "AMI", result == fn("fn_sklearn_adjusted_mutual_info_score", vector_first, vector_second))'),
+            ('correlation-Pearson', 'implies(args.heuristic == "correlation-Pearson", '
+                                    'result == fn("fn_scipy_pearsonr0", vector_first, vector_second))'),
+            ('max-value-coverage', 'implies(args.heuristic == "max-value-coverage", '
+                                   'result == fn("fn_max_pair_coverage", vector_first, vector_second))'),
+            ('Constant', 'implies(args.heuristic == "Constant", result == 0)'),
+            # the numba estimator: plug-in MI for MI-numba-3mr, the corrected score for MI-numba-randomized
+            ('MI-numba-3mr', 'implies(args.heuristic == "MI-numba-3mr" and args.mi_stratified_sampling_ratio == 1, '
+                             'not g_eff and result == entsum(g_cc, len(vector_second), len(g_cv)) - condsum_ns(vector_second, '
+                             'vector_first, g_fv, g_fc, len(vector_second), g_cv, len(g_fv)))'),
+            ('MI-numba-randomized', 'implies(args.heuristic == "MI-numba-randomized" and args.mi_stratified_sampling_ratio == 1 '
+                                    'and not all(vector_first[i] == vector_second[i] for i in range(len(vector_first))), '
+                                    'g_eff and result == condsum_bg_ns(vector_second, vector_first, g_fv, g_fc, len(vector_second), '
+                                    'g_cv, len(g_fv)) - condsum_ns(vector_second, vector_first, g_fv, g_fc, len(vector_second), '
+                                    'g_cv, len(g_fv)))'),
+        ],
+    ),
+    'generate_data_for_ranking': dict(
+        strings='opaque',
+        params={'combination': 'tuple[str,str]', 'reference_model_features': 'list[str]', 'args': ARGS_RANK, 'tmp_df': FRAME_INT},
+        requires=[('no_reference_model', 'args.reference_model_JSON == ""'),
+                  ('names', f'({_C0} in tmp_df.columns) and ({_C1} in tmp_df.columns) and ({_LAB} in tmp_df.columns)')],
+        returns=['int64[:]', 'int64[:]'],
+        ensures=[
+            ('first', f'same_array(result[0], {ROLE_FIRST})'),
+            ('second', f'same_array(result[1], {ROLE_SECOND})'),
+            ('label_is_conditioning_target', f'implies({_C0} == {_LAB} or {_C1} == {_LAB}, '
+                                             f'same_array(result[1], tmp_df[{_LAB}].values))'),
+        ],
+    ),
+    'get_importances_estimate_pairwise': dict(
+        strings='opaque',
+        params={'combination': 'tuple[str,str]', 'reference_model_features': 'list[str]', 'args': ARGS_RANK, 'tmp_df': FRAME_INT},
+        requires=[('no_reference_model', 'args.reference_model_JSON == ""'),
+                  ('names', f'({_C0} in tmp_df.columns) and ({_C1} in tmp_df.columns) and ({_LAB} in tmp_df.columns)'),
+                  ('rows', 'tmp_df.nrows >= 1 and tmp_df.nrows <= 10**6'),
+                  ('ratio', '0 < args.mi_stratified_sampling_ratio and args.mi_stratified_sampling_ratio <= 1'),
+                  ('codes', 'forall(lambda c: all(0 <= tmp_df[c].values[i] and tmp_df[c].values[i] < 2**20 '
+                            'for i in range(tmp_df.nrows)), "str")')],
+        returns=['str', 'str', 'real'],
+        pure=f'({_C0}, {_C1}, {PAIR_SCORE})',
+        ensures=[('names_kept', f'result[0] == {_C0} and result[1] == {_C1}')],
+    ),
     'numba_mi': dict(
         params={'vector_first': 'int64[:]', 'vector_second': 'int64[:]', 'heuristic': 'str',
                 'mi_stratified_sampling_ratio': 'real'},
